@@ -99,7 +99,12 @@ func (d MsgDef) build() (b *built, ok bool) {
 			b, ok = nil, false
 		}
 	}()
-	if !okMID(d.MID) || !okAddr(d.From) || len(d.To)+len(d.Cc) == 0 || len(d.To)+len(d.Cc) > 8 {
+	// A message without any recipient is not valid for sending, but AddOut does
+	// not validate: it can sit in an outbox, and the property's routing rule
+	// ("sole recipient is one of the forwarders") must not make it eligible
+	// for a P2P peer.
+	noRcpt := len(d.To)+len(d.Cc) == 0
+	if !okMID(d.MID) || !okAddr(d.From) || len(d.To)+len(d.Cc) > 8 {
 		return nil, false
 	}
 	seen := map[string]bool{}
@@ -141,7 +146,9 @@ func (d MsgDef) build() (b *built, ok bool) {
 		m.AddFile(fbb.NewFile(f.Name, f.Data))
 	}
 	if err := m.Validate(); err != nil {
-		return nil, false
+		if ve, isVE := err.(fbb.ValidationError); !noRcpt || !isVE || ve.Field != "To/Cc" {
+			return nil, false
+		}
 	}
 	pub, err := canonical(m)
 	if err != nil {
@@ -282,7 +289,8 @@ func genData(r *core.Rand, n int) []byte {
 // genMsg draws a message for MID mid. size scales body and attachments.
 func genMsg(r *core.Rand, mid string, size int) MsgDef {
 	d := MsgDef{MID: mid, From: core.Choice(r, []string{"LA1SIM", "N0SIM-7", "someone@example.net"}), DateMin: r.Intn(6 * 365 * 24 * 60)}
-	switch r.Pick(6, 3, 1) {
+	switch r.Pick(12, 6, 2, 1) {
+	case 3: // no recipient at all (AddOut accepts it)
 	case 0: // one recipient: the P2P-eligible shape
 		d.To = []string{genAddrForm(r, r.Intn(4))}
 	case 1: // two or three distinct recipients
